@@ -6,3 +6,7 @@ Theorem C20_false a s : beval s (retain a TFalse) = true -> beval s a = true. Pr
 Theorem C20_any a : retain a TAny = a. Proof. exact (Retain.C20_any a). Qed.
 Theorem C20_shape a f : robdd a -> robdd (retain a f) /\ incl (support (retain a f)) (support a). Proof. exact (Retain.C20_shape a f). Qed.
 Print Assumptions C20_true. Print Assumptions C20_shape.
+
+(** x0 & x1 with filter True: the forced choice x0 is dropped, x1 stays *)
+Example C20_instance : retain (Nd (Nd T 1 F) 0 F) TTrue = Nd T 1 F /\ retain (Nd (Nd T 1 F) 0 F) TFalse = Nd (Nd T 1 F) 0 F.
+Proof. split; vm_compute; reflexivity. Qed.
